@@ -3,3 +3,7 @@ from . import mech
 
 def run(tier):
     return mech.split(flow=False)
+
+
+def replay(prop, ob):
+    return mech.replay(prop, ob)
